@@ -132,18 +132,47 @@ def ITE(c, a, b):
     return ("ite", c, a, b)
 
 
-def none_cond(t):
+def none_cond(t, never_none=None):
     """Condition under which the conditional value t is None, when every leaf is decidably None / not None; else None."""
     if t == NONE:
         return TRUE
+    if never_none is not None and t[0] == "call" and never_none(t):
+        return FALSE
     if t[0] == "ite":
-        a, b = none_cond(t[2]), none_cond(t[3])
+        a, b = none_cond(t[2], never_none), none_cond(t[3], never_none)
         if a is None or b is None:
             return None
         return OR(AND(t[1], a), AND(NOT(t[1]), b))
     if t[0] in ("global", "lambda", "tuple", "list", "dict", "fstr") or (t[0] == "const" and t[1] is not None):
         return FALSE
     return None
+
+
+def prune(t, live):
+    """Drop the branches of conditional values inside t that the path condition `live` rules out."""
+    if not isinstance(t, tuple) or not t or live == TRUE:
+        return t
+    if not isinstance(t[0], str):
+        return tuple(prune(c, live) for c in t)
+    if t[0] == "ite":
+        la, lb = AND(live, t[1]), AND(live, NOT(t[1]))
+        if la == FALSE:
+            return prune(t[3], lb)
+        if lb == FALSE:
+            return prune(t[2], la)
+        return ITE(t[1], prune(t[2], la), prune(t[3], lb))
+    if t[0] in ("comp", "lambda", "const", "param", "global", "ext", "elem", "alloc"):
+        return t
+    return tuple(prune(c, live) if isinstance(c, tuple) else c for c in t)
+
+
+def sub_const(t, i):
+    """t[i] for a constant index, distributed over conditional values and folded on displays"""
+    if t[0] == "ite":
+        return ITE(t[1], sub_const(t[2], i), sub_const(t[3], i))
+    if t[0] in ("tuple", "list") and -len(t[1]) <= i < len(t[1]) and not any(x[0] == "star" for x in t[1]):
+        return t[1][i]
+    return ("sub", t, ("const", i))
 
 
 def AND(*ts):
@@ -289,6 +318,7 @@ class Summary:
     is_generator: bool = False
     kwarg: Optional[str] = None
     vararg: Optional[str] = None
+    alloc_comps: Dict[tuple, tuple] = field(default_factory=dict)  # accumulator identity -> the comprehension it was read as
 
     def of(self, kind) -> List[Event]:
         return [e for e in self.events if e.kind == kind]
@@ -347,6 +377,7 @@ class Evaluator:
         self.alloc_loops: Dict[str, Tuple[str, ...]] = {}
         self.list_defs: Dict[str, tuple] = {}  # local bound to a list display: (loop stack, live) at the binding
         self.dict_defs: Dict[str, tuple] = {}
+        self.alloc_comps: Dict[tuple, tuple] = {}
         self.rec_types: Dict[tuple, ClassInfo] = {}  # opaque values (loop elements, parameters) known to be NamedTuple records
 
     # ------------------------------------------------------------------ plumbing
@@ -392,6 +423,8 @@ class Evaluator:
 
     def emit(self, kind, live, term, node):
         term = self._records_to_tuples(term)
+        if live not in (TRUE, FALSE) and any(x[0] == "ite" for x in walk(term)):
+            term = prune(term, live)
         if self._post and live != FALSE:
             # an inlined helper raised under some condition earlier in this statement: what follows runs otherwise
             live = AND(live, *self._post)
@@ -440,7 +473,8 @@ class Evaluator:
             fall = self.block(fn.body, TRUE)
             self._normalise_accumulators()
         return Summary(self.qual, self.module, fn, params, defaults, annotations, self.events, self.loops,
-                       self.tries, self.env, fall, self.lambdas, self.nested, self.is_generator, kwarg, vararg)
+                       self.tries, self.env, fall, self.lambdas, self.nested, self.is_generator, kwarg, vararg,
+                       self.alloc_comps)
 
     def _normalise_accumulators(self):
         """`out = []` filled by exactly one `out.append(v)` in a for loop and not otherwise touched until the loop
@@ -510,6 +544,7 @@ class Evaluator:
             for k, v in list(self.env.items()):
                 self.env[k] = subst(v, mp)
             self.normalised = getattr(self, "normalised", []) + [key]
+            self.alloc_comps[al] = comp
 
     def ev_quiet(self, node):
         saved = self.events
@@ -705,7 +740,7 @@ class Evaluator:
                     if isinstance(e, ast.Starred):
                         self.assign(e.value, ("unknown", "starred-unpack"), live, st)
                     else:
-                        self.assign(e, ("sub", val, ("const", i)), live, st)
+                        self.assign(e, sub_const(prune(val, live), i) if val[0] == "ite" else ("sub", val, ("const", i)), live, st)
         elif isinstance(target, ast.Attribute):
             base = self.ev(target.value, live)
             self.emit("store", live, ("store", ("attr", base, target.attr), val), st)
@@ -1116,6 +1151,25 @@ class Evaluator:
         vals = list(rv.values())
         return vals[index] if -len(vals) <= index < len(vals) else None
 
+    def _never_none(self, t) -> bool:
+        """a call to an in-package function all of whose paths return a display / constructor result (never None)"""
+        f = t[1]
+        if f[0] == "global" and f[2] == "class":
+            return True
+        if not (f[0] == "global" and f[2] == "func" and ":" in f[1]) or len(self.inline_stack) >= 4:
+            return False
+        modname, fname = f[1].split(":")
+        try:
+            m, fn = self.index.need_func(modname, fname)
+            sub = Evaluator(self.index, m, fn, f[1], None)
+            sub.inline_stack = self.inline_stack + (f[1],)
+            cs = sub.run()
+        except (AnalysisError, RecursionError):
+            return False
+        if cs.fall_live != FALSE or cs.is_generator or not cs.raw_returns:
+            return False
+        return all(none_cond(r.term) == FALSE for r in cs.raw_returns)
+
     def _typed_get(self, base, ci, attr):
         """field / property `attr` of an opaque value known to be a record of class ci: base[i] / the property's body"""
         fields = [st.target.id for st in ci.node.body if isinstance(st, ast.AnnAssign) and isinstance(st.target, ast.Name)]
@@ -1256,7 +1310,7 @@ class Evaluator:
             if c[1] in ("is", "isnot") and NONE in (c[2], c[3]):
                 other = c[3] if c[2] == NONE else c[2]
                 if other[0] == "ite":
-                    nc = none_cond(other)
+                    nc = none_cond(other, self._never_none)
                     if nc is not None:
                         c = nc if c[1] == "is" else NOT(nc)
             parts.append(c)
